@@ -1,6 +1,11 @@
-"""C06 — see DESIGN.md sections 5 "C06" and 11, and checks/svcommon.py."""
+"""C06 — see DESIGN.md sections 5 "C06" and 11, and checks/svcommon.py; the REST session-end stage is lib/restsess.py."""
 from checks import svcommon
+from lib import restsess
 
 
 def run(ctx):
+    if ctx.replay and restsess.replay(ctx, ctx.replay):
+        return
     svcommon.run(ctx, "C06")
+    if not ctx.replay:
+        restsess.run_property(ctx)
